@@ -219,8 +219,9 @@ prop("C11", "exploration",
      "signatures, bit-flipped signatures, sender signature by another key). distinct = (flow, alteration, outcome); non-trivial = all",
      [{"name": "c11", "cmd": "c11", "shards": {"quick": 12, "thorough": 16}, "crash_is_violation": True, "timeout": {"quick": 900, "thorough": 3000}}],
      {"quick": 500, "thorough": 4000},
-     ["'kernel not on chain' is tested before mining (a fork removing the kernel is exercised by C18's machinery, not here)"],
-     required_hist=["exported-proof-verifies", "unmined-proof-rejected", "altered-proof-rejected", "refused:altered", "success-exact:Send", "success-exact:LateLock"])
+     ["'kernel not on chain' is tested before mining and, once per shard as its last action, after the block holding the kernel was replaced by a longer fork without it",
+      "once per shard a proof-carrying send (standard or late-locked) is initiated from a named account (src_acct_name) while another account is active; a refusal is accepted, a success must export a verifying proof"],
+     required_hist=["exported-proof-verifies", "unmined-proof-rejected", "altered-proof-rejected", "refused:altered", "success-exact:Send", "success-exact:LateLock", "reorganised-away-proof-rejected"])
 
 prop("C07", "exploration",
      "sequences of foreign calls (direct Foreign functions and JSON-RPC bodies through ForeignAPIHandlerV2::post) against a victim wallet holding confirmed outputs, "
